@@ -381,8 +381,9 @@ class GeneralSurrogate:
             if self.numElements == 2:
                 return np.squeeze(np.power(output[:,0],3))
             else:
-                d = np.power(output[:,:x.shape[1]*x.shape[1]], 3)
-                d = np.reshape(d, (d.shape[0], x.shape[1], x.shape[1]))
+                nSolutes = self.numElements - 1
+                d = np.power(output[:,:nSolutes*nSolutes], 3)
+                d = np.reshape(d, (d.shape[0], nSolutes, nSolutes))
                 return np.squeeze(d)
         else:
             return self.therm.getInterdiffusivity(x, T, phase=phase, *args, **kwargs)
@@ -406,10 +407,11 @@ class GeneralSurrogate:
         phase = _getMatrixPhase(self.phases, phase)
         if phase in self.diffusivityModels:
             output = self._getDiffusivity(x, T, phase)
-            d = np.power(output[:,x.shape[1]*x.shape[1]:],3)
+            nSolutes = self.numElements - 1
+            d = np.power(output[:,nSolutes*nSolutes:],3)
             return np.squeeze(d)
         else:
-            return self.therm.getInterdiffusivity(x, T, phase=phase, *args, **kwargs)
+            return self.therm.getTracerDiffusivity(x, T, phase=phase, *args, **kwargs)
 
     def _collectSurrogateData(self):
         '''
@@ -469,7 +471,7 @@ class BinarySurrogate(GeneralSurrogate):
         singleT, singleG = len(T) == 1, len(gExtra) == 1
         if broadcast:
             Tsize, gsize = len(T), len(gExtra)
-            T = np.tile(T, (gsize,1))
+            T = np.tile(T, gsize)
             gExtra = np.repeat(gExtra, Tsize, axis=0)
         return T, gExtra, singleT, singleG
     
